@@ -186,6 +186,9 @@ func Load(name string, o LoadOpts) (*Prog, error) {
 				if hi := helperOf(fn); hi != nil && hi.seam {
 					top = fn
 				}
+				if hi := helperOf(fn); hi != nil && hi.once {
+					continue // a literal run by Once.Do: seen spliced into the function that contains it
+				}
 				if info := helperOf(top); info != nil {
 					syncOnly := true
 					for _, s := range info.sites {
